@@ -247,9 +247,10 @@ def main(argv):
         "coverage": cov, "assumptions": list(mod.ASSUMPTIONS),
         "wall_s": round(time.time() - t0, 2), "violations": int(n_unknown),
     }
-    os.makedirs(os.path.join(VERIF, "evidence"), exist_ok=True)
-    with open(os.path.join(VERIF, "evidence", pid + ".json"), "w") as f:
-        json.dump(evidence, f, indent=1, sort_keys=True)
+    if pid != "SELFCHECK":
+        os.makedirs(os.path.join(VERIF, "evidence"), exist_ok=True)
+        with open(os.path.join(VERIF, "evidence", pid + ".json"), "w") as f:
+            json.dump(evidence, f, indent=1, sort_keys=True)
     for ln in lines:
         print(ln)
     print(f"{pid} {tier}: states={cov['states']} transitions={cov['transitions']} traces={cov['traces_validated_against_impl']} "
